@@ -153,6 +153,14 @@ qb_loop_run(struct qb_loop *lp)
 	}
 	l->stop_requested = QB_FALSE;
 
+	/*
+	 * items that were queued but not dispatched when a previous run
+	 * was stopped are work to do, not a reason to sleep
+	 */
+	for (p = QB_LOOP_LOW; p <= QB_LOOP_HIGH; p++) {
+		remaining_todo += l->level[p].todo;
+	}
+
 	do {
 		if (p_stop == QB_LOOP_LOW) {
 			p_stop = QB_LOOP_HIGH;
